@@ -34,6 +34,7 @@ class Ctx:
         self.samples = []
         self.excluded = collections.Counter()
         self.counting = True
+        self.undeclarable = 0
         self._seen_sample_classes = set()
 
     # -- called by checks ---------------------------------------------------------------
@@ -41,6 +42,13 @@ class Ctx:
         if self.counting:
             for n in names:
                 self.labels[n] += 1
+
+    def skip_undeclarable(self, spec, err):
+        """The DSL refused a generated spec.  Counted, not fatal: declaration rules are not what most
+        checks are about (a gate in the runner turns a high ratio into a harness error)."""
+        self.undeclarable += 1
+        if self.counting:
+            self.labels["skip:undeclarable-spec"] += 1
 
     def mark_nontrivial(self, case, sample_class=None):
         """Record a case as non-trivial (counted once per distinct canonical encoding)."""
